@@ -735,6 +735,10 @@ func schemes(n int, full bool) [][]string {
 		add("//p:a", "//p:_a#t", "//p:b", "//p:c", "//p:d")
 		add("//p:a", "//p:_a#t", "//p:B", "//p:C", "//p:D")
 	}
+	if n == 4 {
+		// a rule with TWO hidden sub-targets (a test may reach the thing under test through a chain of its own sub-targets)
+		add("//p:a", "//p:_a#t", "//p:_a#u", "//p:b")
+	}
 	if full {
 		// two packages (sources and sweep order differ), hidden names sorting after their parent, two sub-targets
 		add("//q:a", "//p:b", "//p:c", "//q:d", "//p:e")
